@@ -31,6 +31,12 @@ def py_eval_factory(leaf, consts):
                     s = None
                 if s in names:
                     return ast.copy_location(ast.Name(id="P_" + names[s], ctx=ast.Load()), node)
+                # `x is not None` / `a not in b` where the registered parameter is the positive form
+                if isinstance(node, ast.Compare) and len(node.ops) == 1 and isinstance(node.ops[0], (ast.IsNot, ast.NotIn)):
+                    pos = ast.unparse(ast.Compare(left=node.left, ops=[ast.Is() if isinstance(node.ops[0], ast.IsNot) else ast.In()],
+                                                  comparators=node.comparators))
+                    if pos in names:
+                        return ast.copy_location(ast.UnaryOp(op=ast.Not(), operand=ast.Name(id="P_" + names[pos], ctx=ast.Load())), node)
             return super().generic_visit(node)
 
     tree = ast.fix_missing_locations(Sub().visit(tree))
@@ -155,6 +161,12 @@ def run(lean_dir, repo):
         out.append("#eval IO.println (toString ([%s] : List %s))" % (", ".join(calls), ty))
     f = lean_dir / ".gen_selftest.lean"
     f.write_text("\n".join(out) + "\n")
+    # the generated modules must be compiled before they can be evaluated
+    gmods = ["Zc.Gen." + q.stem for q in sorted(gen_dir.glob("*.lean"))]
+    b = subprocess.run(["lake", "build"] + gmods, cwd=lean_dir, stdout=subprocess.PIPE, stderr=subprocess.STDOUT, timeout=900)
+    if b.returncode != 0:
+        f.unlink(missing_ok=True)
+        return False, "generated Lean does not compile: " + b.stdout.decode()[-400:], total
     p = subprocess.run(["lake", "env", "lean", f.name], cwd=lean_dir, stdout=subprocess.PIPE, stderr=subprocess.STDOUT, timeout=900)
     text = p.stdout.decode()
     f.unlink(missing_ok=True)
